@@ -626,7 +626,7 @@ class StateBase:
         LOG.append(("rehydrate", type(self).__name__))
 
     def on_cancel(self, ctx: Any) -> None:
-        LOG.append(("on_cancel", type(self).__name__, ctx.method_name))
+        LOG.append(("on_cancel", type(self).__name__, getattr(ctx, "_method_name", "?")))
 
 
 def _serialize_compact_stub(state: Any) -> Any:
